@@ -60,6 +60,28 @@ func Byte(name string) byte     { return byte(in(name)) }
 func Bool(name string) bool     { return in(name) != 0 }
 func Symbolic() bool            { return false }
 
+// Twin runs two instances. Under symgo: one after the other, each under a
+// memory monitor that records every cell read and written. Natively: on two
+// goroutines at the same time (build with -race to see data races).
+func Twin(a, b func()) {
+	done := make(chan bool, 2)
+	go func() { a(); done <- true }()
+	go func() { b(); done <- true }()
+	<-done
+	<-done
+}
+
+// MonitorShared: number of cells written by one instance and read or written
+// by the other (0 natively). MonitorGlobalWrites: writes to cells reachable
+// from package-level variables.
+func MonitorShared() int       { return 0 }
+func MonitorGlobalWrites() int { return 0 }
+
+// MapOrder(1): from now on every range over a built-in map iterates in an
+// arbitrary (solver-chosen) order; MapOrder(0): insertion order. Natively a
+// no-op (Go picks its own order).
+func MapOrder(mode int) {}
+
 // ModelDecodeRune is the engine's model of utf8.DecodeRune under symgo and the
 // real function natively.
 func ModelDecodeRune(p []byte) (rune, int) { return utf8.DecodeRune(p) }
@@ -169,6 +191,49 @@ func init() {
 			}
 			return a[1]
 		},
+		"Twin": func(in *Interp, fn *ssa.Function, a []Value) Value {
+			in.globalCells = in.reachableFromGlobals()
+			for k := 0; k < 2; k++ {
+				in.mons[k] = &monitor{reads: map[any]bool{}, writes: map[any]bool{}}
+				in.mon = in.mons[k]
+				in.callValue(a[k], nil, nil)
+				in.mon = nil
+			}
+			return nil
+		},
+		"MonitorShared": func(in *Interp, fn *ssa.Function, a []Value) Value {
+			n := 0
+			for k := 0; k < 2; k++ {
+				me, other := in.mons[k], in.mons[1-k]
+				if me == nil || other == nil {
+					continue
+				}
+				for c := range me.writes {
+					if other.reads[c] || other.writes[c] {
+						n++
+					}
+				}
+			}
+			return intRet(n)
+		},
+		"MonitorGlobalWrites": func(in *Interp, fn *ssa.Function, a []Value) Value {
+			n := 0
+			for k := 0; k < 2; k++ {
+				if in.mons[k] == nil {
+					continue
+				}
+				for c := range in.mons[k].writes {
+					if in.globalCells[c] {
+						n++
+					}
+				}
+			}
+			return intRet(n)
+		},
+		"MapOrder": func(in *Interp, fn *ssa.Function, a []Value) Value {
+			in.mapOrderMode = int(a[0].(Int).C)
+			return nil
+		},
 		"Symbolic": func(in *Interp, fn *ssa.Function, a []Value) Value { return mkBool(true) },
 		"Concretize": func(in *Interp, fn *ssa.Function, a []Value) Value {
 			i := a[0].(Int)
@@ -225,10 +290,84 @@ func init() {
 }
 
 // monitor records the memory footprint (cells read and written) for C18.
+// Keys are *Value cells and *Map objects.
 type monitor struct {
-	reads  map[*Value]bool
-	writes map[*Value]bool
+	reads  map[any]bool
+	writes map[any]bool
 }
 
-func (m *monitor) read(p *Value)  { m.reads[p] = true }
-func (m *monitor) write(p *Value) { m.writes[p] = true }
+func (m *monitor) read(p any)  { touch(m.reads, p) }
+func (m *monitor) write(p any) { touch(m.writes, p) }
+
+// touch records a cell and, for aggregates stored in it, every nested cell
+// (field and element pointers alias them).
+func touch(set map[any]bool, p any) {
+	set[p] = true
+	if c, ok := p.(*Value); ok && c != nil {
+		switch v := (*c).(type) {
+		case Struct:
+			for i := range v {
+				touch(set, &v[i])
+			}
+		case Array:
+			for i := range v {
+				touch(set, &v[i])
+			}
+		}
+	}
+}
+
+// reachableFromGlobals collects every cell and map reachable from the
+// package-level variables of non-standard packages.
+func (in *Interp) reachableFromGlobals() map[any]bool {
+	seen := map[any]bool{}
+	var walk func(v Value)
+	walk = func(v Value) {
+		switch v := v.(type) {
+		case *Value:
+			if v == nil || seen[v] {
+				return
+			}
+			seen[v] = true
+			walk(*v)
+		case Struct:
+			for i := range v {
+				seen[&v[i]] = true
+				walk(v[i])
+			}
+		case Array:
+			for i := range v {
+				seen[&v[i]] = true
+				walk(v[i])
+			}
+		case Slice:
+			full := v.A[:cap(v.A)]
+			for i := range full {
+				seen[&full[i]] = true
+				walk(full[i])
+			}
+		case *Map:
+			if v == nil || seen[v] {
+				return
+			}
+			seen[v] = true
+			for i := range v.keys {
+				walk(v.keys[i])
+				walk(v.vals[i])
+			}
+		case Iface:
+			walk(v.V)
+		case *Closure:
+			for _, e := range v.Env {
+				walk(e)
+			}
+		}
+	}
+	for g, cell := range in.globals {
+		if g.Pkg != nil && in.P.runsInit(g.Pkg.Pkg.Path()) && !in.P.Std[g.Pkg.Pkg.Path()] {
+			seen[cell] = true
+			walk(*cell)
+		}
+	}
+	return seen
+}
